@@ -839,7 +839,8 @@ func (s *State) extendFunctionEnv(
 		params = params[:n]
 		// Expending the last argument expecting it to be "..", but any other array will do too.
 		if len(args) > 0 && object.Value(args[len(args)-1]).Type() == object.ARRAY { // (deref: an array of an outer scope too)
-			args = append(args[:len(args)-1], object.Elements(object.Value(args[len(args)-1]))...)
+			// (full slice expression: never write the spread elements into the caller's slice, it is the cache key)
+			args = append(args[:len(args)-1:len(args)-1], object.Elements(object.Value(args[len(args)-1]))...)
 		}
 		if len(args) >= n {
 			extra = args[n:]
